@@ -114,6 +114,13 @@ type EnumSchema struct {
 var _ RootSchema = (*EnumSchema)(nil)
 
 func (s *EnumSchema) OptionByName(name string) *EnumOption {
+	// the short name as given wins: a short name may itself begin with the
+	// prefix (P_P_A in enum P is "P_A"), and that is how it is encoded
+	for _, opt := range s.Options {
+		if opt.name == name {
+			return opt
+		}
+	}
 	shortName := strings.TrimPrefix(name, s.NamePrefix)
 	for _, opt := range s.Options {
 		if opt.name == shortName {
